@@ -67,6 +67,17 @@ def _field_writes_named(b, name):
     return out
 
 
+def _reads_field(node, name):
+    """the operand is the field `name` itself (`x.f + 1` increments f; `shared.fetch_add(1) + 1` does not)"""
+    for lf in leaves(node):
+        lf = peel(lf)
+        if lf[0] == "cycle":
+            continue            # the loop-carried value of the same place
+        if not (lf[0] == "field" and lf[2] == name):
+            return False
+    return True
+
+
 def _discover_counter(tr, poll):
     """the field of the future that poll increments by one (the per-request attempt counter), by role"""
     cands = {}
@@ -80,7 +91,7 @@ def _discover_counter(tr, poll):
             v = peel(tr.stmt_value(poll, i, j))
             if v[0] == "field" and peel(v[1])[0] == "binop":
                 v = peel(v[1])
-            if v[0] == "binop" and v[1] in ("Add", "AddWithOverflow") and peel(v[3])[0] == "const" and peel(v[3])[3] == "1":
+            if v[0] == "binop" and v[1] in ("Add", "AddWithOverflow") and peel(v[3])[0] == "const" and peel(v[3])[3] == "1" and _reads_field(v[2], names[-1]):
                 cands[names[-1]] = cands.get(names[-1], 0) + 1
     return sorted(cands, key=lambda k: -cands[k])[0] if cands else None
 
@@ -191,7 +202,7 @@ def run(facts, tr, rep):
         v = peel(tr.stmt_value(poll, i, j))
         if v[0] == "field" and peel(v[1])[0] == "binop":
             v = peel(v[1])
-        if v[0] == "binop" and v[1] in ("Add", "AddWithOverflow") and peel(v[3])[0] == "const" and peel(v[3])[3] == "1":
+        if v[0] == "binop" and v[1] in ("Add", "AddWithOverflow") and peel(v[3])[0] == "const" and peel(v[3])[3] == "1" and _reads_field(v[2], CNT):
             incs.append((i, j))
     for n, (c, v, node) in enumerate(sleeping_sets):
         edges = dominating_edges(tr, poll, c.bb)
@@ -254,6 +265,12 @@ def run(facts, tr, rep):
             if s2 is None or s2.kind != "bool":
                 continue
             node2 = peel(tr.expand(tr.operand(poll, s2.cond, (bb, len(g.stmts(bb))))))
+            if node2[0] == "phi":
+                # a flag that holds the comparison on the Some(max) side and a constant on the unlimited side (an inlined
+                # `attempts_exhausted(attempt)`): on the paths examined here (from the Some edge) it is the comparison
+                alts_ = [peel(x) for x in node2[1] if peel(x)[0] != "const"]
+                if len(alts_) == 1:
+                    node2 = alts_[0]
             lab = None
             cm = normalise_cmp(tr, node2)
             if cm is not None:
@@ -395,6 +412,19 @@ def run(facts, tr, rep):
             rep.ob("C16.STATE", skey(poll, "connected-before-ok#%d" % nok), okm, g.where(i, j),
                    "the state is marked connected before the success is returned" if okm else "success is returned without marking the state connected")
     rep.floor("C16.ok-returns", nok, 1)
+    # `connected` is published when the handling of this request is over (a success, or giving up without a retry): after
+    # mark_connected no further phase of the reconnect cycle is entered and the wrapped service is not touched again, so the
+    # state never reads connected while a reconnectable failure is still being handled
+    for n_, c_ in enumerate([x for x in g.calls() if x.name == "mark_connected" and g.live(x.bb)]):
+        r_ = g.reach([c_.target], kinds=(N,)) if c_.target is not None else set()
+        later = [(sc, v) for (sc, v, _nd) in sets if v in ("Connecting", "Calling", "Sleeping") and sc.bb in r_]
+        later_calls = [x for x in g.calls() if x.bb in r_ and x.self_kind in ("param", "ref_param", "alias") and
+                       x.def_ in ("tower_service::Service::call", "tower_service::Service::poll_ready", "core::future::future::Future::poll")]
+        okc = not later and not later_calls
+        rep.ob("C16.STATE", skey(poll, "connected-is-final#%d" % n_), okc, c_.where(),
+               "after the state is marked connected the request is answered without touching the wrapped service again" if okc else
+               "the state is marked connected and the request then goes on (%s): it reads connected while the reconnectable failure is "
+               "still being handled" % (("phase " + later[0][1] + " at " + later[0][0].where()) if later else later_calls[0].where()))
     # mark_disconnected on every reconnectable-error path before any exit: from the predicate's accepting edge every
     # path to a return passes mark_disconnected
     for bb in range(g.n):
